@@ -463,6 +463,7 @@ def run(ctx):
         ctx.cov["mismatches"] += len(mm)
         case, r = kept_cases[mm[0]]
         where = ctx.coq_show("where", HEADER, "where_bad %s" % gcase(case, r))
-        ctx.broken("correspondence", "model C08.Model.step and the real RegisteredDecoys disagree on %d histories; first: %d ops, "
-                   "first differing operation: %s" % (len(mm), len(case["ops"]), where[-200:]),
+        ctx.broken("correspondence", "the real RegisteredDecoys disagrees with the model C08.Model.step and/or the ghost "
+                   "specification on %d histories; first: %d ops, first differing operation (model, ghost): %s"
+                   % (len(mm), len(case["ops"]), where[-200:]),
                    {"case": case, "observed": r["obs"][-1]})
